@@ -326,6 +326,13 @@ class C05Monitor(Monitor):
         pt, val = rs[0], rs[1]
         if len(pt) == a.N and not self._inside(a, pt):
             w.flag(self.prop, "result_outside_box", "%s: %s returned point %r outside [%r, %r]" % (a.aid, kind, pt, a.lower, a.upper), kind)
+        if a.spec.get("listeners") and kind in ("solve", "results") and not a.shipped and len(pt) == a.N and not a.fired_faults:
+            done = [c for c in a.calls if c.completed and c.phase != "probe" and c.y == pt]
+            if done and not any(c.value == val for c in done):
+                w.flag(self.prop, "result_value", "%s: %s returned value %r at %r, where the objective returned %r" % (a.aid, kind, val, pt, done[0].value), kind)
+            elif not done and a.f_side(pt) != val:
+                w.flag(self.prop, "result_value", "%s: %s returned value %r at %r, a point that was never evaluated (the objective there is %r)"
+                       % (a.aid, kind, val, pt, a.f_side(pt)), kind)
         refined = kind == "refine" or (kind == "solve" and a.params.get("refineSolution"))
         # (also after an objective failure inside the refinement - contained by Solve or caught by the caller: whatever is
         # reported then must still be a point with ITS value, and not worse than the best global trial)
